@@ -1,21 +1,20 @@
 SPECIFICATION Spec
 CONSTANTS
-  RootTpls = {"none", "root", "var", "idx2"}
-  ATpls = {"none", "var", "meth", "idx2", "base"}
-  ABTpls = {"none", "root", "meth", "base"}
-  Segs = {"a", "b", "f", "x", "index", "ev"}
+  RootTpls = {"none", "idx2", "var"}
+  ATpls = {"none", "idx2", "var"}
+  ABTpls = {"none"}
+  Segs = {"a", "f", "x", "ev"}
   MaxLen = 3
-  Methods = {"GET", "POST"}
-  Queries = {"none", "p1", "z"}
-  Bodies = {"none", "p1"}
+  Methods = {"GET"}
+  Queries = {"none"}
+  Bodies = {"none"}
   TSs = {FALSE}
   NCs = {""}
   Dynamic = FALSE
-  MaxSteps = 6
-  MaxReqs = 6
+  MaxSteps = 1
+  MaxReqs = 1
   Devs = {"defaults"}
 INVARIANT TypeOK
 INVARIANT Conforms
-INVARIANT Direct
 VIEW View
 CHECK_DEADLOCK FALSE
